@@ -85,13 +85,3 @@ class Sighting(_RelationshipObject):
             kwargs['sighting_of_ref'] = sighting_of_ref
 
         super(Sighting, self).__init__(**kwargs)
-
-    def _check_object_constraints(self):
-        super(Sighting, self)._check_object_constraints()
-
-        first_seen = self.get('first_seen')
-        last_seen = self.get('last_seen')
-
-        if first_seen and last_seen and last_seen < first_seen:
-            msg = "{0.id} 'last_seen' must be greater than or equal to 'first_seen'"
-            raise ValueError(msg.format(self))
